@@ -143,6 +143,11 @@ type Obs struct {
 	Panic   any         // value that escaped ServeHTTP
 	Paniced bool
 	Served  *H // the handler value the CallFunc received
+
+	// only under the controlled scheduler: re-read after the exit point
+	ParamsExit  map[string]string
+	PatternExit string
+	RouterExit  string
 }
 
 type obsKey struct{}
@@ -194,7 +199,18 @@ var Point func()
 func Call(w http.ResponseWriter, r *http.Request, route types.Route, h *H) {
 	if Point != nil {
 		Point()
-		defer Point()
+		defer func() {
+			Point()
+			// what the request sees when it resumes: still its own parameters and node?
+			if o2, _ := r.Context().Value(obsKey{}).(*Obs); o2 != nil && route != nil {
+				o2.ParamsExit = map[string]string{}
+				route.Params().Range(func(k, v string) { o2.ParamsExit[k] = v })
+				o2.RouterExit = route.RouterName()
+				if n := route.Node(); n != nil && !isNilNode(n) {
+					o2.PatternExit = n.Pattern()
+				}
+			}
+		}()
 	}
 	o, _ := r.Context().Value(obsKey{}).(*Obs)
 	if o == nil {
